@@ -4,12 +4,17 @@
    model, ReconstructSome, Decode/ConcatDataParts, DecodeRange, DecodeIndexes: equal part lengths, padding,
    truncation, decoding from every erasure set (|E| <= m+1), partial reconstruction; closed forms
    DecodeDefined/ReconDefined proved equal to the operational definitions.
-2. TLC exhaustive, spec/ECMulti.tla: modifyECParentObject (pooled buffer, capacity trimming, several rules
-   encoded from one buffer): no encoding is corrupted by a later one. The deviation switch Guard=FALSE must
-   produce a counterexample, which is replayed on the real iec.Encode (demonstration, never a verdict).
+2. TLC exhaustive, spec/ECMulti.tla: modifyECParentObject (pooled buffer, capacity policy, several rules encoded
+   from one buffer): no encoding is corrupted by a later one. The deviating capacity policies ("pool": no trimming,
+   "alignFirst": rounded up to the first rule's data count) must produce counterexamples (the first is replayed on
+   the real iec.Encode: demonstration, never a verdict); with ANY capacity the step machine agrees with the
+   prediction operator MultiCorrupted(rules, L, spare capacity) used for record validation.
 3. C->M record validation (spec/TraceECCode.tla): the real iec.Encode/Decode/DecodeRange/DecodeIndexes over
-   rules 1-8/0-4 x lengths 0..4096 x erasure patterns, and the real modifyECParentObject over rule
-   sequences x lengths around the pool capacity; TLC evaluates the property and the closed forms per record."""
+   rules 1-8/0-4 x lengths 0..4096 x erasure patterns, and the real modifyECParentObject over random rule
+   sequences x lengths around the pool capacity AND over ALL ordered pairs of rules (+ triples) x EVERY length
+   0..64 (thorough 0..256 + boundaries): per rule equal lengths, announced hashes match the parts after all rules
+   were encoded, parts equal a fresh encoding, decoding with lost parts; the spare capacity actually handed to the
+   EC library is recorded and the memory model must predict exactly the corrupted rules."""
 import json, os
 import vkit
 import ec_util
@@ -26,9 +31,13 @@ def run(ck):
     binp = ck.gobuild("ec")
     # anti-vacuity of the multi-rule model: without the capacity trimming the model must break, and the
     # break must exist in the real library
-    ng = ck.tlc("ECMulti", "ECMulti_noguard.cfg", timeout=900, count=False)
-    if not (ng.kind == "invariant" and ng.name == "NoCrossCorruption"):
-        raise vkit.Infra("ECMulti with Guard=FALSE did not produce the expected counterexample (%s %s)" % (ng.kind, ng.name))
+    # the model must break for both deviating capacity policies ("pool": no trimming, "alignFirst": capacity rounded up
+    # to the first rule's data count) and must agree with the one-shot prediction operator for EVERY capacity
+    for cfg in ("ECMulti_noguard.cfg", "ECMulti_align.cfg"):
+        ng = ck.tlc("ECMulti", cfg, timeout=900, count=False)
+        if not (ng.kind == "invariant" and ng.name == "NoCrossCorruption"):
+            raise vkit.Infra("ECMulti/%s did not produce the expected counterexample (%s %s)" % (cfg, ng.kind, ng.name))
+    ck.tlc_model("ECMulti", "ECMulti_anycap.cfg", timeout=1200)
     hz = json.loads(ck.harness(binp, ["eccode-hazard", 1, 1, 2, 1, 1, 5]).stdout.strip().splitlines()[-1])
     ck.setcov("library_spare_capacity_hazard_reproduced_on_real_encode", bool(hz.get("corrupted")))
     if not hz.get("corrupted"):
@@ -38,7 +47,11 @@ def run(ck):
     if ck.replay:
         rp = json.load(open(ck.replay))["replay"]
         rin = os.path.join(ck.tmp, "replay-in.json")
-        json.dump(rp["record"], open(rin, "w"))
+        rr = rp["record"]
+        if rr.get("kind") == "mseq":
+            i = next((j for j in range(len(rr["lens"])) if rr["bad"][j] or rr["gen"][j]), 0)
+            rr = {"kind": "multi", "rules": rr["rules"], "len": rr["lens"][i]}
+        json.dump(rr, open(rin, "w"))
         ck.harness(binp, ["eccode-replay", rin, recs])
     else:
         ck.harness(binp, ["eccode", recs], timeout=1800)
@@ -47,7 +60,9 @@ def run(ck):
     classes = set()
     for r in data:
         kinds[r["kind"]] = kinds.get(r["kind"], 0) + 1
-        if r["kind"] == "multi":
+        if r["kind"] == "mseq":
+            classes.add(("mseq", tuple(x[0] for x in r["rules"])))
+        elif r["kind"] == "multi":
             classes.add(("multi", len(r["rules"]), min(r["len"], 1025) // 512, len({tuple(x) for x in r["rules"]}) < len(r["rules"])))
         else:
             k = r["k"]
@@ -73,14 +88,23 @@ def run(ck):
             if r["kind"] == want and r.get("len", 0) > 8 and (want == "multi" or r["miss"]):
                 ck.sample(r)
                 break
-    if not ck.replay and (len(kinds) < 5 or len(seen) < 40 or len(full) < 25):
+    ms = [r for r in data if r["kind"] == "mseq"]
+    ck.setcov("multi_rule_ordered_pairs", sum(1 for r in ms if len(r["rules"]) == 2))
+    ck.setcov("multi_rule_triples", sum(1 for r in ms if len(r["rules"]) == 3))
+    ck.setcov("multi_rule_encodings_checked", sum(len(r["lens"]) for r in ms) + kinds.get("multi", 0))
+    ck.setcov("multi_rule_lengths", "every length 0..%d%s for every ordered pair" % (max(ms[0]["lens"][:257]) if ms else 0, " + boundaries" if thorough else ""))
+    ck.setcov("spare_capacity_observed_max", max([max(r["slack"]) for r in ms] + [r.get("slack", 0) for r in data if r["kind"] == "multi"] + [0]))
+    if not ck.replay and (len(ms) < 500 or len(kinds) < 6 or len(seen) < 40 or len(full) < 25):
         raise vkit.Infra("vacuous run: kinds=%s rules=%d" % (kinds, len(seen)))
     bad = ec_util.validate_chunks(ck, "TraceECCode", "TraceECCode.cfg", recs)
     if bad:
         idx, line, v = bad
         rec = json.loads(line)
         if v.kind == "invariant" and v.name == "PropOnRecords":
-            ck.violation("real EC code breaks C21 on record %d: %s" % (idx + 1, line.strip()[:600]), {"record": rec})
+            brief = line.strip()[:600]
+            if rec.get("kind") == "mseq":
+                brief = "ordered rules %s: %s" % (rec["rules"], rec.get("why", ""))
+            ck.violation("real EC code breaks C21 on record %d: %s" % (idx + 1, brief), {"record": rec})
         elif v.kind == "invariant" and v.name == "CodeIsSpec":
             raise vkit.Infra("real EC outcome differs from the spec's closed form while the property holds on the record "
                              "(model out of date, not a verdict): %s" % line.strip()[:600])
